@@ -30,6 +30,10 @@ type Cycle struct {
 	// still be shown.
 	DenseFlood  int `json:"dense_flood,omitempty"`
 	DenseStatus int `json:"dense_status,omitempty"`
+	// PressInFlood > 0: Ctrl+O is pressed this many ms into a dense flood of
+	// shell output that is being displayed (the situation Ctrl+O exists for);
+	// the flood goes on until the mute is announced.
+	PressInFlood int `json:"press_in_flood,omitempty"`
 }
 
 // C19Case is a schedule of 1-3 mute cycles.
@@ -52,29 +56,21 @@ type sent struct {
 }
 
 // firstSeen returns when tok first appeared in the cleaned transcript (zero = never) and how often.
-func firstSeen(chunks []Chunk, tok string) (time.Time, int) {
-	var acc []byte
-	var when time.Time
-	prev := 0
-	for _, c := range chunks {
-		acc = append(acc, c.Data...)
-		n := strings.Count(Clean(acc), tok)
-		if n > prev && when.IsZero() {
-			when = c.When
-		}
-		prev = n
+func firstSeen(p *Proc, tok string) (time.Time, int) {
+	clean, chunks := p.Snapshot()
+	ts := Seen(clean, chunks, tok)
+	if len(ts) == 0 {
+		return time.Time{}, 0
 	}
-	return when, prev
+	return ts[0], len(ts)
 }
 
 // nthSeen returns when the n-th (1-based) occurrence of tok appeared.
-func nthSeen(chunks []Chunk, tok string, n int) time.Time {
-	var acc []byte
-	for _, c := range chunks {
-		acc = append(acc, c.Data...)
-		if strings.Count(Clean(acc), tok) >= n {
-			return c.When
-		}
+func nthSeen(p *Proc, tok string, n int) time.Time {
+	clean, chunks := p.Snapshot()
+	ts := Seen(clean, chunks, tok)
+	if n >= 1 && n <= len(ts) {
+		return ts[n-1]
 	}
 	return time.Time{}
 }
@@ -124,15 +120,59 @@ func runC19(t testing.TB, c C19Case) (key, what string, classes []string) {
 		}
 		// make sure they arrived before muting, then press Ctrl+O
 		time.Sleep(guard)
-		_, nMuteBefore := firstSeen(p.Chunks(), muteMsg)
-		_, nUnmuteBefore := firstSeen(p.Chunks(), unmuteMsg)
+		_, nMuteBefore := firstSeen(p, muteMsg)
+		_, nUnmuteBefore := firstSeen(p, unmuteMsg)
+		var floodStop, floodDone chan struct{}
+		if cy.PressInFlood > 0 {
+			floodStop, floodDone = make(chan struct{}), make(chan struct{})
+			go func() {
+				defer close(floodDone)
+				chunk := []byte(strings.Repeat("displayed-flood ", 60) + "\r\n")
+				for {
+					select {
+					case <-floodStop:
+						return
+					default:
+					}
+					io.c.SetWriteDeadline(time.Now().Add(3 * time.Second))
+					if io.Send(chunk) != nil {
+						return
+					}
+					time.Sleep(150 * time.Microsecond)
+				}
+			}()
+			time.Sleep(time.Duration(cy.PressInFlood) * time.Millisecond)
+			classes = append(classes, "ctrl-o-during-displayed-flood")
+		}
 		ctrlO := time.Now()
 		p.Type("\x0f")
-		if !p.WaitFor(10*time.Second, func(o string) bool { return strings.Count(o, muteMsg) > nMuteBefore }) {
+		announced := p.WaitCount(10*time.Second, muteMsg, nMuteBefore+1)
+		if floodStop != nil {
+			close(floodStop)
+			<-floodDone
+			io.c.SetWriteDeadline(time.Time{})
+		}
+		if !announced {
+			if cy.PressInFlood > 0 {
+				// discriminate a slow terminal from a stuck one: status lines are
+				// always written, so one must show up if anything still works
+				st := time.Now()
+				status()
+				if !p.WaitOutput(15*time.Second, fmt.Sprintf("s%dq", nstat)) && !p.WaitCount(0, muteMsg, nMuteBefore+1) {
+					return "terminal-stuck-after-ctrl-o", fmt.Sprintf("%s: Ctrl+O pressed %d ms into a flood of displayed shell output: no muting announcement within 10 s, and a status line triggered afterwards did not appear within %.0f s either", desc, cy.PressInFlood, time.Since(st).Seconds()), classes
+				}
+			}
 			return "mute-not-announced", desc + ": Ctrl+O was not followed by the muting announcement within 10 s", classes
 		}
 		time.Sleep(guard)
 		lastPlain := ctrlO
+		if cy.PressInFlood > 0 {
+			// whatever of the flood was still queued has been swallowed by now
+			if err := marker("muted"); err != nil {
+				return "HARNESS", err.Error(), classes
+			}
+			lastPlain = time.Now()
+		}
 		statusSet := map[int]bool{}
 		for _, i := range cy.StatusAt {
 			statusSet[i] = true
@@ -195,25 +235,25 @@ func runC19(t testing.TB, c C19Case) (key, what string, classes []string) {
 		}
 		var second time.Time
 		if cy.SecondCtrl > 0 && len(cy.StatusLateMS) == 0 {
-			_, nAgain := firstSeen(p.Chunks(), againMsg)
+			_, nAgain := firstSeen(p, againMsg)
 			time.Sleep(time.Until(lastPlain.Add(time.Duration(cy.SecondCtrl) * time.Millisecond)))
 			second = time.Now()
 			p.Type("\x0f")
 			// the statement does not require any particular answer to a repeated
 			// Ctrl+O; whether "Already muted" shows up is recorded, not judged
-			if p.WaitFor(1500*time.Millisecond, func(o string) bool { return strings.Count(o, againMsg) > nAgain }) {
+			if p.WaitCount(1500*time.Millisecond, againMsg, nAgain+1) {
 				classes = append(classes, "already-muted-announced")
 			}
 			classes = append(classes, "ctrl-o-while-muted")
 		}
 		// silence: it must un-mute by itself about 2 s after the last suppressed output
 		deadline := lastPlain.Add(pause + 3*time.Second)
-		p.WaitFor(time.Until(deadline), func(o string) bool { return strings.Count(o, unmuteMsg) > nUnmuteBefore })
-		U := nthSeen(p.Chunks(), unmuteMsg, nUnmuteBefore+1)
+		p.WaitCount(time.Until(deadline), unmuteMsg, nUnmuteBefore+1)
+		U := nthSeen(p, unmuteMsg, nUnmuteBefore+1)
 		if U.IsZero() {
 			// follow-up: five more silent seconds
-			p.WaitFor(5*time.Second, func(o string) bool { return strings.Count(o, unmuteMsg) > nUnmuteBefore })
-			if nthSeen(p.Chunks(), unmuteMsg, nUnmuteBefore+1).IsZero() {
+			p.WaitCount(5*time.Second, unmuteMsg, nUnmuteBefore+1)
+			if nthSeen(p, unmuteMsg, nUnmuteBefore+1).IsZero() {
 				return "never-unmuted", fmt.Sprintf("%s: still muted %.1f s after the last shell output", desc, time.Since(lastPlain).Seconds()), classes
 			}
 			return "HARNESS", desc + ": un-muting took longer than 5 s but happened (slow machine?)", classes
@@ -257,9 +297,8 @@ func runC19(t testing.TB, c C19Case) (key, what string, classes []string) {
 		classes = append(classes, "mute-cycle-completed")
 	}
 	time.Sleep(guard)
-	chunks := p.Chunks()
 	for _, s := range log {
-		when, n := firstSeen(chunks, s.tok)
+		when, n := firstSeen(p, s.tok)
 		switch s.kind {
 		case "shown":
 			if n != 1 {
@@ -322,6 +361,9 @@ func genC19() *rapid.Generator[C19Case] {
 				cy.DenseStatus = rapid.IntRange(2, 8).Draw(t, "densestatus")
 			} else if rapid.IntRange(0, 1).Draw(t, "latestatus") == 0 {
 				cy.StatusLateMS = rapid.SampledFrom([][]int{{1200}, {1000, 1700}, {600, 1200, 1800}, {1500}}).Draw(t, "latems")
+			}
+			if rapid.IntRange(0, 2).Draw(t, "pressinflood") == 0 {
+				cy.PressInFlood = rapid.SampledFrom([]int{30, 120, 400}).Draw(t, "pressms")
 			}
 			c.Cycles = append(c.Cycles, cy)
 		}
@@ -411,10 +453,10 @@ func confirmExtension(p *Proc, marker func(string) error) bool {
 // the marker.
 func confirmExtensionBy(p *Proc, marker func(string) error, act func()) bool {
 	time.Sleep(guard)
-	_, nMute := firstSeen(p.Chunks(), muteMsg)
-	_, nUn := firstSeen(p.Chunks(), unmuteMsg)
+	_, nMute := firstSeen(p, muteMsg)
+	_, nUn := firstSeen(p, unmuteMsg)
 	p.Type("\x0f")
-	if !p.WaitFor(10*time.Second, func(o string) bool { return strings.Count(o, muteMsg) > nMute }) {
+	if !p.WaitCount(10*time.Second, muteMsg, nMute+1) {
 		return false
 	}
 	time.Sleep(guard)
@@ -423,8 +465,8 @@ func confirmExtensionBy(p *Proc, marker func(string) error, act func()) bool {
 	time.Sleep(1200 * time.Millisecond)
 	second := time.Now()
 	act()
-	p.WaitFor(8*time.Second, func(o string) bool { return strings.Count(o, unmuteMsg) > nUn })
-	U := nthSeen(p.Chunks(), unmuteMsg, nUn+1)
+	p.WaitCount(8*time.Second, unmuteMsg, nUn+1)
+	U := nthSeen(p, unmuteMsg, nUn+1)
 	if U.IsZero() {
 		return false
 	}
